@@ -1022,6 +1022,9 @@ class Hist:
                 self.kinds.add('interrupted')
             elif not rec.get('ok'):
                 self.viol.append(('C15/iter/estimation-raised', f'{kind} raised {rec.get("exc")}: {rec.get("msg")}', label))
+            if rec.get('ok') and kind != 'quick' and rec.get('estimates') and len(rec['estimates']) == len(self.sess['names']):
+                # normal end of estimate(): the estimates become the starting values of the object
+                self.add(f'(EstimateEnd {cvec(rec["estimates"])})', None, label)
             self.add('Observe', rec, label)
             self.observe_file(rec, label)
             # a later estimation starts from the saved values
@@ -1029,8 +1032,10 @@ class Hist:
                 d = reference_dict(file_before)
                 exp = None if d is None else [fhex(d[n]) if n in d else None for n in self.sess['names']]
                 if exp is not None:
-                    got = rec.get('init')
                     inner = [r for r in rec.get('inner', []) if 'x' in r]
+                    # the starting values as they are DURING the run (at its end estimate() overwrites them
+                    # with the estimates)
+                    got = inner[0]['init'] if inner and inner[0].get('init') else rec.get('init')
                     first = inner[0]['x'] if inner else None
                     bad = any(e is not None and e != g for e, g in zip(exp, got))
                     # (the optimiser itself moves a start beyond ~1e154 inside its own numerical bounds: the first
